@@ -23,6 +23,10 @@ impl Timestamp {
 
     /// Returns a timestamp representing the current system time.
     pub fn now() -> Timestamp {
+        #[cfg(cfb_verif)]
+        if let Some(value) = verif_clock_get() {
+            return Timestamp(value);
+        }
         Timestamp::from_system_time(SystemTime::now())
     }
 
@@ -46,6 +50,22 @@ impl Timestamp {
 }
 
 //===========================================================================//
+
+#[cfg(cfb_verif)]
+static VERIF_CLOCK: std::sync::Mutex<Option<u64>> =
+    std::sync::Mutex::new(None);
+
+/// Verification hook: pins (or unpins) the value returned by
+/// `Timestamp::now()`.
+#[cfg(cfb_verif)]
+pub fn verif_clock_set(value: Option<u64>) {
+    *VERIF_CLOCK.lock().unwrap() = value;
+}
+
+#[cfg(cfb_verif)]
+fn verif_clock_get() -> Option<u64> {
+    *VERIF_CLOCK.lock().unwrap()
+}
 
 /// The CFB timestamp value for the Unix epoch (Jan 1, 1970 UTC).
 const UNIX_EPOCH_TIMESTAMP: u64 = 116444736000000000;
